@@ -50,7 +50,7 @@ def text_probe(rep: Report, rng):
 def run(ctx, rep: Report, deep: bool = False):
     rng = ctx.rng
     rep.rule = (
-        "canonical sheets of 1..6 tracks x each cosmetic transformation (keyword case, surrounding blanks from the str.strip set, inserted blank line, inserted unknown line) applied at EVERY line position, "
+        "canonical sheets of 1..6 tracks x each cosmetic transformation (keyword case, surrounding blanks from the str.strip set, inserted blank line, inserted unknown line, the blanks between fields replaced by tabs / several blanks) applied at EVERY line position, "
         "plus random combinations; every variant parsed by the real parser and the model, and compared with the canonical meaning (oracle); "
         "line classifier vs the four re objects on generated near-miss lines; distinct = distinct op line; non-trivial = sheet with >= 1 track"
     )
@@ -103,7 +103,7 @@ def run(ctx, rep: Report, deep: bool = False):
     text_probe(rep, rng)
     if ctx.model_available:
         compare_family(rep, "cue", cases, nontrivial=lambda c: "track" in c.impl)
-    rep.required_features = ["bin_name_with_blanks", "minutes_100_and_more", "variant_case", "variant_blanks", "variant_blankline", "variant_unknown", "variant_mixed", "malformed_sheets"]
+    rep.required_features = ["bin_name_with_blanks", "minutes_100_and_more", "variant_innerws", "variant_case", "variant_blanks", "variant_blankline", "variant_unknown", "variant_mixed", "malformed_sheets"]
 
 
 def search(ctx, rep: Report):
